@@ -85,12 +85,24 @@ class NodeProtocol(Protocol):
         """Returns the program counter address after the node was emitted."""
 
 
+def _check_label_address(resolver: Resolver, symbol_name: str, current_addr: Address) -> None:
+    """A label keeps the value it got while labels were resolved: fail if the code before it changed size since."""
+    expected = resolver.current_scope.labels.get(symbol_name)
+    if expected != current_addr.logical_value:
+        raise NodeError(
+            f"Label {symbol_name} moved between passes ({expected} != {current_addr.logical_value}): "
+            "the size of a previous statement changed.",
+            None,  # type:ignore
+        )
+
+
 class LabelNode(NodeProtocol):
     def __init__(self, symbol_name: str, resolver: Resolver) -> None:
         self.symbol_name = symbol_name
         self.resolver = resolver
 
     def emit(self, current_addr: Address) -> bytes:
+        _check_label_address(self.resolver, self.symbol_name, current_addr)
         return b""
 
     def pc_after(self, current_pc: Address) -> Address:
@@ -137,6 +149,7 @@ class BinaryNode(NodeProtocol):
         self.resolver = resolver
 
     def emit(self, current_addr: Address) -> bytes:
+        _check_label_address(self.resolver, self.symbol_base, current_addr)
         return self.binary_content
 
     def pc_after(self, current_pc: Address) -> Address:
